@@ -28,6 +28,7 @@ type Clause struct {
 type LoopSpec struct {
 	Invariants []Clause
 	Decreases  ast.Expr
+	Increases  ast.Expr // strictly greater at every back edge than at the header (the code-dependent half of a termination argument whose bound is assumed)
 	Unroll     int
 	AssumeTerm string // termination argued informally in the contract (an assumption, listed in the evidence)
 }
@@ -37,6 +38,7 @@ type FuncSpec struct {
 	ResultNames []string
 	Requires    []Clause
 	Axioms      []Clause // assumed at entry (instances of assumed contracts on dependencies); listed in the evidence
+	Lemmas      []Lemma  // proved at entry from an instance of a verified functional contract, then usable as a fact
 	Ensures     []Clause
 	Modifies    []string
 	Loops       map[int]*LoopSpec
@@ -51,6 +53,16 @@ type FuncSpec struct {
 	AllowPanic  bool
 	Inline      bool
 	Functional  string // name of the uninterpreted function that equals the result (pure function of the arguments)
+}
+
+// Lemma: `lemma <label>: <expr> by <function>(<args>)` - a ghost call. The named function must have a verified
+// (not trusted) `functional` contract without a modifies clause; its precondition at the given arguments is an
+// obligation, its postconditions (with the result named by the function's uninterpreted symbol) are then facts,
+// and <expr> is an obligation under them. Nothing is assumed.
+type Lemma struct {
+	Clause Clause
+	Callee string
+	Args   []ast.Expr
 }
 
 type Macro struct {
@@ -85,7 +97,7 @@ func (db *SpecDB) Lookup(name string) *FuncSpec {
 	return db.Funcs[name]
 }
 
-var clauseKW = regexp.MustCompile(`^(func|extern|define|requires|ensures|modifies|loop|props|safety|schema|trusted|effect|decreases|assume|allow-panic|inline|functional|axiom)\b`)
+var clauseKW = regexp.MustCompile(`^(func|extern|define|requires|ensures|modifies|loop|props|safety|schema|trusted|effect|decreases|assume|allow-panic|inline|functional|axiom|lemma)\b`)
 
 // LoadSpecs reads every given contract file.
 func LoadSpecs(files []string) (*SpecDB, error) {
@@ -235,6 +247,29 @@ func (db *SpecDB) loadFile(file string) error {
 				}
 				cur.Axioms = append(cur.Axioms, cl)
 				db.Assumes = appendUnique(db.Assumes, "axiom "+cur.Name+": "+rest)
+			case "lemma":
+				k := strings.LastIndex(rest, " by ")
+				if k < 0 {
+					return errf("lemma: want `lemma <label>: <expr> by <function>(<args>)`")
+				}
+				cl, err := parseClause(rest[:k], cur.Props)
+				if err != nil {
+					return errf("lemma: %v", err)
+				}
+				by := strings.TrimSpace(rest[k+4:])
+				op := strings.Index(by, "(")
+				if op <= 0 || !strings.HasSuffix(by, ")") {
+					return errf("lemma: want `by <function>(<args>)`, got %q", by)
+				}
+				cx, err := parseSpecExpr("f" + by[op:])
+				if err != nil {
+					return errf("lemma: %v", err)
+				}
+				ce, ok := cx.(*ast.CallExpr)
+				if !ok {
+					return errf("lemma: %q is not a call", by)
+				}
+				cur.Lemmas = append(cur.Lemmas, Lemma{Clause: cl, Callee: strings.TrimSpace(by[:op]), Args: ce.Args})
 			case "requires", "ensures":
 				cl, err := parseClause(rest, cur.Props)
 				if err != nil {
@@ -289,6 +324,12 @@ func (db *SpecDB) loadFile(file string) error {
 						return errf("loop decreases: %v", err)
 					}
 					ls.Decreases = ex
+				case "increases":
+					ex, err := parseSpecExpr(body)
+					if err != nil {
+						return errf("loop increases: %v", err)
+					}
+					ls.Increases = ex
 				case "unroll":
 					k, err := strconv.Atoi(body)
 					if err != nil {
